@@ -2,6 +2,12 @@ package props
 
 import (
 	"fmt"
+	"os"
+	"os/exec"
+	"regexp"
+	"strings"
+	"sync"
+	"time"
 
 	"verifmc/explore"
 	"verifmc/machine"
@@ -63,6 +69,68 @@ var c25Progs = [][]byte{
 	}, 0x50: {
 		0x34, // INC (HL)
 		0xd9, // RETI
+	}}),
+	// P3 cartridge RAM writer: MBC1+RAM, 4 banks; enables RAM and fills it, switching banks
+	machine.ProgramCart(0x03, 0x03, map[uint16][]byte{0x100: {
+		0x3e, 0x0a, // LD A,0A
+		0xea, 0x00, 0x00, // LD (0000),A   RAM enable
+		0x3e, 0x42, // LD A,42
+		0xea, 0x00, 0xa0, // LD (A000),A
+		0x3c,             // INC A
+		0xea, 0x01, 0xa0, // LD (A001),A
+		0x3e, 0x01, // LD A,01
+		0xea, 0x00, 0x60, // LD (6000),A   mode 1
+		0xea, 0x00, 0x40, // LD (4000),A   RAM bank 1
+		0x3e, 0x99, // LD A,99
+		0xea, 0x00, 0xa0, // LD (A000),A
+		0x21, 0x02, 0xa0, // LD HL,A002
+		0x34,       // INC (HL)
+		0x2c,       // INC L
+		0x18, 0xfc, // JR back to INC (HL)
+	}}),
+	// P4 cartridge RAM reader: MBC1+RAM, 1 bank; reads before it writes (a boot counter)
+	machine.ProgramCart(0x03, 0x02, map[uint16][]byte{0x100: {
+		0x3e, 0x0a, // LD A,0A
+		0xea, 0x00, 0x00, // LD (0000),A   RAM enable
+		0xfa, 0x00, 0xa0, // LD A,(A000)
+		0xea, 0x00, 0xc0, // LD (C000),A
+		0x47,             // LD B,A
+		0xfa, 0x01, 0xa0, // LD A,(A001)
+		0xea, 0x01, 0xc0, // LD (C001),A
+		0x3c,             // INC A
+		0xea, 0x00, 0xa0, // LD (A000),A
+		0x21, 0x10, 0xa0, // LD HL,A010
+		0x7e,       // LD A,(HL)
+		0x80,       // ADD A,B
+		0x22,       // LD (HL+),A
+		0x18, 0xfb, // JR back to LD A,(HL)
+	}}),
+	// P5 MBC2 (built-in 512x4 RAM): read-increment-write
+	machine.ProgramCart(0x06, 0x00, map[uint16][]byte{0x100: {
+		0x3e, 0x0a, // LD A,0A
+		0xea, 0x00, 0x00, // LD (0000),A   RAM enable
+		0xfa, 0x00, 0xa0, // LD A,(A000)
+		0xea, 0x00, 0xc0, // LD (C000),A
+		0x3c,             // INC A
+		0xea, 0x00, 0xa0, // LD (A000),A
+		0x21, 0x01, 0xa0, // LD HL,A001
+		0x34,       // INC (HL)
+		0x7e,       // LD A,(HL)
+		0x2c,       // INC L
+		0x18, 0xfb, // JR back to INC (HL)
+	}}),
+	// P6 MBC5+RAM, 4 banks: reads, then writes
+	machine.ProgramCart(0x1b, 0x03, map[uint16][]byte{0x100: {
+		0x3e, 0x0a, // LD A,0A
+		0xea, 0x00, 0x00, // LD (0000),A   RAM enable
+		0xfa, 0x00, 0xa0, // LD A,(A000)
+		0xea, 0x00, 0xc0, // LD (C000),A
+		0x3e, 0x77, // LD A,77
+		0xea, 0x00, 0xa0, // LD (A000),A
+		0x21, 0x01, 0xa0, // LD HL,A001
+		0x34,       // INC (HL)
+		0x2c,       // INC L
+		0x18, 0xfc, // JR back
 	}}),
 }
 
@@ -154,6 +222,72 @@ func c25Check(l *explore.Local, e *c25Env, c c25Case) *explore.Fail {
 	return nil
 }
 
+// ---- free-running pass under the race detector ------------------------------------------------
+// A cooperative enumeration in one goroutine cannot see memory-model-level races between instances that
+// really run in parallel, and the race detector sees nothing under a cooperative schedule (hand-offs are
+// happens-before edges). So the same instance bodies are also run free, one goroutine each, in a separate
+// binary built with -race; any report names two goroutines touching the same variable, i.e. state shared
+// between instances. This pass is supporting evidence (one free-running execution per run, not an enumeration).
+
+func c25RaceWorker(args []string) int {
+	var wg sync.WaitGroup
+	for i := 0; i < 8; i++ {
+		wg.Add(1)
+		go func(i int) {
+			defer wg.Done()
+			for round := 0; round < 3; round++ { // instances are also created while others run
+				m := machine.New(c25Progs[(i+round)%len(c25Progs)], machine.Opts{Audio: i%2 == 0, ChanCap: 1 << 14})
+				for c := 0; c < 17556+4000; c++ {
+					m.Cycle()
+				}
+				_ = m.DigestMode(1)
+			}
+		}(i)
+	}
+	wg.Wait()
+	fmt.Println("c25race: done")
+	return 0
+}
+
+var raceSiteRe = regexp.MustCompile(`(?m)^  (github\.com/scottyw/tetromino/[^\s(]+)`)
+
+// c25RacePass runs the worker in the -race binary (built by ./check next to vmc) and reports data races.
+func c25RacePass(c *Ctx) {
+	if c.R == nil {
+		return
+	}
+	exe := c.SelfExe + "-race"
+	if _, err := os.Stat(exe); err != nil {
+		c.R.Extra("race_pass", "skipped: no -race binary ("+err.Error()+")")
+		return
+	}
+	t0 := time.Now()
+	cmd := exec.Command(exe, "worker", "c25race")
+	cmd.Env = append(os.Environ(), "GORACE=halt_on_error=0 exitcode=66", "GOMAXPROCS=8")
+	out, err := cmd.CombinedOutput()
+	text := string(out)
+	n := strings.Count(text, "WARNING: DATA RACE")
+	if n == 0 && !strings.Contains(text, "c25race: done") {
+		c.R.HarnessError("race pass: worker did not finish: %v: %s", err, tail(text, 600))
+		return
+	}
+	c.R.Extra("race_pass", fmt.Sprintf("supporting evidence, not an enumeration: one free-running execution of 8 goroutines x 3 instances each (created while others run), 21,556 machine cycles per instance, under the Go race detector: %d data race report(s), %.1f s", n, time.Since(t0).Seconds()))
+	if n > 0 {
+		site := "unknown"
+		if m := raceSiteRe.FindStringSubmatch(text); m != nil {
+			site = m[1]
+		}
+		c.R.Violate("free-running-race-pass", explore.Failf("data race between emulator instances running in parallel: "+site, "%d race report(s); first:\n%s", n, tail(text[strings.Index(text, "WARNING: DATA RACE"):], 1800)), map[string]string{"worker": "c25race"})
+	}
+}
+
+func tail(s string, n int) string {
+	if len(s) > n {
+		return s[:n]
+	}
+	return s
+}
+
 // interleavings enumerates every sequence over n instances with exactly k steps each.
 func interleavings(n, k int, yield func([]int) bool) {
 	left := make([]int, n)
@@ -183,10 +317,11 @@ func interleavings(n, k int, yield func([]int) bool) {
 }
 
 func init() {
+	Workers["c25race"] = c25RaceWorker
 	register("C25", "model_checking", func(c *Ctx) {
 		if c.R != nil {
 			c.R.Rule = "every interleaving of k emulator instances x n steps each (step = 1, 7 or 17556 machine cycles), under 3 creation orders; after every step every live instance's digest (registers + selected reads; all writable regions + ROM-window probes + frame at the end) must equal its solo run at the same step count; a case is one complete schedule"
-			c.R.Assumptions = []string{"instances are wired like gameboy.New (machine.New; C26 checks the wiring equivalence)", "explored in one goroutine so that a shared-state defect fails deterministically; true parallel execution is covered by a separate free-running pass (thorough)"}
+			c.R.Assumptions = []string{"instances are wired like gameboy.New (machine.New; C26 checks the wiring equivalence)", "explored in one goroutine so that a shared-state defect fails deterministically; true parallel execution is covered by a separate free-running pass of the same bodies under the Go race detector (supporting evidence)"}
 		}
 		type shape struct{ n, k int }
 		shapes := []shape{{2, 5}, {3, 2}}
@@ -196,8 +331,8 @@ func init() {
 			units = []int{1, 7, 61}
 		}
 		gen := func(yield func(c25Case) bool) {
-			progSets2 := [][]int{{0, 1}, {1, 2}, {2, 0}, {2, 2}}
-			progSets3 := [][]int{{0, 1, 2}, {2, 1, 0}}
+			progSets2 := [][]int{{0, 1}, {1, 2}, {2, 0}, {2, 2}, {3, 4}, {4, 3}, {4, 4}, {5, 5}, {3, 6}, {6, 4}}
+			progSets3 := [][]int{{0, 1, 2}, {2, 1, 0}, {3, 5, 4}}
 			for _, sh := range shapes {
 				sets := progSets2
 				if sh.n == 3 {
@@ -235,7 +370,8 @@ func init() {
 		}
 		explore.Product(c.R, "interleavings", explore.PartOpt{Workers: 1, Guard: true,
 			Bound:  fmt.Sprintf("all interleavings of shapes %v (instances x steps), units %v cycles + frame steps 2x3, 3x2; 3 creation orders", shapes, units),
-			Domain: "3 guest programs (ALU/CB/branches; stores/stack/CALL; timer interrupt + HALT)"},
+			Domain: "7 guest programs (ALU/CB/branches; stores/stack/CALL; timer interrupt + HALT; cartridge RAM writer on MBC1 with 4 banks; cartridge RAM read-before-write on MBC1 with 1 bank, on MBC2 and on MBC5)"},
 			gen, func() *c25Env { return &c25Env{solo: map[string][]uint64{}} }, c25Check)
+		c25RacePass(c)
 	})
 }
